@@ -7,6 +7,7 @@ from __future__ import absolute_import, division, print_function, unicode_litera
 
 import copy  # TODO
 import logging
+import os
 import sys
 from collections import OrderedDict
 from typing import Iterable, Union
@@ -1230,6 +1231,16 @@ def annotate_states(node: ast.Node) -> None:
     w.walk(StateAnnotator(node), node)
 
 
+# Verification hook (off unless PYMOCA_VERIF=1 and a harness installs a callback):
+# reports the flat class after each stage of flatten().
+_VERIF_HOOK = None
+
+
+def _verif_stage(name, flat_class):
+    if _VERIF_HOOK is not None and os.environ.get("PYMOCA_VERIF") == "1":
+        _VERIF_HOOK(name, flat_class)
+
+
 def flatten(root: ast.Tree, class_name: ast.ComponentRef) -> ast.Class:
     """
     This function takes a Tree and flattens it so that all subclasses instances
@@ -1242,17 +1253,21 @@ def flatten(root: ast.Tree, class_name: ast.ComponentRef) -> ast.Class:
     orig_class = root.find_class(class_name, copy=False)
 
     flat_class = flatten_class(orig_class)
+    _verif_stage("flatten_class", flat_class)
 
     # expand connectors
     expand_connectors(flat_class)
+    _verif_stage("expand_connectors", flat_class)
 
     # add equations for state symbol values
     add_state_value_equations(flat_class)
     for func in flat_class.functions.values():
         add_variable_value_statements(func)
+    _verif_stage("add_state_value_equations", flat_class)
 
     # annotate states
     annotate_states(flat_class)
+    _verif_stage("annotate_states", flat_class)
 
     # Put class in root
     root = ast.Tree()
